@@ -8,6 +8,7 @@ import (
 	"go/token"
 	"go/types"
 	"strings"
+	"sync"
 
 	"golang.org/x/tools/go/ssa"
 )
@@ -22,9 +23,74 @@ type deferred struct {
 	args []Value
 }
 
+type fnInfo struct {
+	slot map[ssa.Value]int
+	n    int
+}
+
+var fnInfos sync.Map // *ssa.Function -> *fnInfo
+
+type unsetT struct{}
+
+var unsetVal Value = &unsetT{}
+
+func infoOf(fn *ssa.Function) *fnInfo {
+	if v, ok := fnInfos.Load(fn); ok {
+		return v.(*fnInfo)
+	}
+	fi := &fnInfo{slot: map[ssa.Value]int{}}
+	add := func(v ssa.Value) {
+		if _, ok := fi.slot[v]; !ok {
+			fi.slot[v] = fi.n
+			fi.n++
+		}
+	}
+	for _, p := range fn.Params {
+		add(p)
+	}
+	for _, fv := range fn.FreeVars {
+		add(fv)
+	}
+	for _, b := range fn.Blocks {
+		for _, in := range b.Instrs {
+			if v, ok := in.(ssa.Value); ok {
+				add(v)
+			}
+		}
+	}
+	v, _ := fnInfos.LoadOrStore(fn, fi)
+	return v.(*fnInfo)
+}
+
+func (fr *Frame) set(v ssa.Value, x Value) {
+	i, ok := fr.info.slot[v]
+	if !ok {
+		panic(fmt.Sprintf("no slot for %s in %s", v.Name(), fr.fn))
+	}
+	fr.env[i] = x
+}
+
+func (fr *Frame) lookup(v ssa.Value) (Value, bool) {
+	i, ok := fr.info.slot[v]
+	if !ok || fr.env[i] == unsetVal {
+		return nil, false
+	}
+	return fr.env[i], true
+}
+
+func newFrame(fn *ssa.Function, retTo ssa.Value, onRet func(Value)) *Frame {
+	fi := infoOf(fn)
+	env := make([]Value, fi.n)
+	for i := range env {
+		env[i] = unsetVal
+	}
+	return &Frame{fn: fn, env: env, info: fi, block: fn.Blocks[0], retTo: retTo, onRet: onRet}
+}
+
 type Frame struct {
 	fn     *ssa.Function
-	env    map[ssa.Value]Value
+	info   *fnInfo
+	env    []Value
 	block  *ssa.BasicBlock
 	prev   *ssa.BasicBlock
 	pc     int
@@ -560,7 +626,7 @@ func (e *Exec) get(fr *Frame, v ssa.Value) Value {
 	case *ssa.Builtin:
 		return v
 	}
-	r, ok := fr.env[v]
+	r, ok := fr.lookup(v)
 	if !ok {
 		panic(fmt.Sprintf("unbound %s (%T) in %s", v.Name(), v, fr.fn))
 	}
@@ -669,15 +735,15 @@ func (e *Exec) pushCall(g *Goroutine, f FuncV, args []Value, retTo ssa.Value, on
 	if e.job.Trace && fn.Pkg != nil && strings.HasPrefix(fn.Pkg.Pkg.Path(), "github.com/tsuna/gohbase") {
 		e.trace = append(e.trace, fmt.Sprintf("g%d %s%s", g.id, strings.Repeat(" ", len(g.stack)), fn.String()))
 	}
-	fr := &Frame{fn: fn, env: map[ssa.Value]Value{}, block: fn.Blocks[0], retTo: retTo, onRet: onRet}
+	fr := newFrame(fn, retTo, onRet)
 	if len(all) != len(fn.Params) {
 		panic(fmt.Sprintf("arity %s: %d vs %d", fn, len(all), len(fn.Params)))
 	}
 	for i, p := range fn.Params {
-		fr.env[p] = all[i]
+		fr.set(p, all[i])
 	}
 	for i, fv := range fn.FreeVars {
-		fr.env[fv] = f.free[i]
+		fr.set(fv, f.free[i])
 	}
 	g.stack = append(g.stack, fr)
 }
@@ -687,7 +753,7 @@ func (e *Exec) deliver(g *Goroutine, retTo ssa.Value, onRet func(Value), res Val
 		onRet(res)
 	}
 	if retTo != nil && len(g.stack) > 0 {
-		g.stack[len(g.stack)-1].env[retTo] = res
+		g.stack[len(g.stack)-1].set(retTo, res)
 	}
 }
 
@@ -819,7 +885,7 @@ func (e *Exec) step(g *Goroutine) {
 	if debugFn != "" && strings.Contains(fr.fn.String(), debugFn) {
 		defer func() {
 			if v, ok := in.(ssa.Value); ok {
-				fmt.Printf("  [%s] %s = %s   => %+v\n", fr.fn.Name(), v.Name(), in, fr.env[v])
+				fmt.Printf("  [%s] %s = %s   => %+v\n", fr.fn.Name(), v.Name(), in, func() Value { x, _ := fr.lookup(v); return x }())
 			} else {
 				fmt.Printf("  [%s] %s\n", fr.fn.Name(), in)
 			}
@@ -830,7 +896,7 @@ func (e *Exec) step(g *Goroutine) {
 	case *ssa.Phi:
 		for i, p := range fr.block.Preds {
 			if p == fr.prev {
-				fr.env[in] = e.get(fr, in.Edges[i])
+				fr.set(in, e.get(fr, in.Edges[i]))
 				break
 			}
 		}
@@ -838,7 +904,7 @@ func (e *Exec) step(g *Goroutine) {
 		t := in.Type().(*types.Pointer).Elem()
 		o := e.newObj(t, nil, in.Comment)
 		o.v = e.zero(t)
-		fr.env[in] = Ptr{obj: o}
+		fr.set(in, Ptr{obj: o})
 	case *ssa.Store:
 		e.store(e.get(fr, in.Addr).(Ptr), e.get(fr, in.Val))
 	case *ssa.UnOp:
@@ -849,42 +915,42 @@ func (e *Exec) step(g *Goroutine) {
 			if p.obj == nil {
 				panic(e.panicEnd(in, "nil pointer dereference"))
 			}
-			fr.env[in] = e.load(p)
+			fr.set(in, e.load(p))
 		case token.NOT:
-			fr.env[in] = tt.Not(x.(*Term))
+			fr.set(in, tt.Not(x.(*Term)))
 		case token.SUB:
 			t := x.(*Term)
-			fr.env[in] = tt.Bin(OSub, tt.Const(t.w, 0), t)
+			fr.set(in, tt.Bin(OSub, tt.Const(t.w, 0), t))
 		case token.XOR:
 			t := x.(*Term)
-			fr.env[in] = tt.Bin(OBXor, t, tt.Const(t.w, ^uint64(0)))
+			fr.set(in, tt.Bin(OBXor, t, tt.Const(t.w, ^uint64(0))))
 		case token.ARROW:
 			v, ok, blocked := e.chanRecv(g, x.(ChanV), in)
 			if blocked {
 				return
 			}
 			if in.CommaOk {
-				fr.env[in] = TupleV{v, tt.Bool(ok)}
+				fr.set(in, TupleV{v, tt.Bool(ok)})
 			} else {
-				fr.env[in] = v
+				fr.set(in, v)
 			}
 		default:
 			panic("unop " + in.Op.String())
 		}
 	case *ssa.BinOp:
-		fr.env[in] = e.binop(in, e.get(fr, in.X), e.get(fr, in.Y))
+		fr.set(in, e.binop(in, e.get(fr, in.X), e.get(fr, in.Y)))
 	case *ssa.Convert:
-		fr.env[in] = e.convert(e.get(fr, in.X), in.X.Type(), in.Type(), in)
+		fr.set(in, e.convert(e.get(fr, in.X), in.X.Type(), in.Type(), in))
 	case *ssa.ChangeType:
-		fr.env[in] = e.get(fr, in.X)
+		fr.set(in, e.get(fr, in.X))
 	case *ssa.ChangeInterface:
-		fr.env[in] = e.get(fr, in.X)
+		fr.set(in, e.get(fr, in.X))
 	case *ssa.MakeInterface:
-		fr.env[in] = IfaceV{t: in.X.Type(), v: e.get(fr, in.X)}
+		fr.set(in, IfaceV{t: in.X.Type(), v: e.get(fr, in.X)})
 	case *ssa.TypeAssert:
-		fr.env[in] = e.typeAssert(in, e.get(fr, in.X).(IfaceV))
+		fr.set(in, e.typeAssert(in, e.get(fr, in.X).(IfaceV)))
 	case *ssa.Extract:
-		fr.env[in] = e.get(fr, in.Tuple).(TupleV)[in.Index]
+		fr.set(in, e.get(fr, in.Tuple).(TupleV)[in.Index])
 	case *ssa.FieldAddr:
 		p := e.get(fr, in.X).(Ptr)
 		if p.obj == nil {
@@ -894,9 +960,9 @@ func (e *Exec) step(g *Goroutine) {
 			k := e.concretize(p.idx, "index of aggregate element")
 			p = Ptr{obj: p.obj, path: append(append([]int{}, p.path...), int(k))}
 		}
-		fr.env[in] = p.field(in.Field)
+		fr.set(in, p.field(in.Field))
 	case *ssa.Field:
-		fr.env[in] = copyVal(e.get(fr, in.X).(*StructV).f[in.Field])
+		fr.set(in, copyVal(e.get(fr, in.X).(*StructV).f[in.Field]))
 	case *ssa.IndexAddr:
 		idx := e.subst(e.toI64(e.get(fr, in.Index), in.Index.Type()))
 		switch x := e.get(fr, in.X).(type) {
@@ -906,14 +972,14 @@ func (e *Exec) step(g *Goroutine) {
 				ln = tt.Const(64, 0)
 			}
 			e.check(tt.Cmp(OUlt, idx, ln), in, "index out of range")
-			fr.env[in] = x.arr.elem(e.subst(tt.Bin(OAdd, x.off, idx)))
+			fr.set(in, x.arr.elem(e.subst(tt.Bin(OAdd, x.off, idx))))
 		case Ptr: // *array
 			if x.obj == nil {
 				panic(e.panicEnd(in, "nil array pointer"))
 			}
 			n := in.X.Type().Underlying().(*types.Pointer).Elem().Underlying().(*types.Array).Len()
 			e.check(tt.Cmp(OUlt, idx, tt.Const(64, uint64(n))), in, "index out of range")
-			fr.env[in] = x.elem(idx)
+			fr.set(in, x.elem(idx))
 		default:
 			panic(fmt.Sprintf("indexaddr on %T", x))
 		}
@@ -923,21 +989,21 @@ func (e *Exec) step(g *Goroutine) {
 		case *ArrayV:
 			e.check(tt.Cmp(OUlt, idx, tt.Const(64, uint64(len(x.e)))), in, "index out of range")
 			k := e.concretize(idx, "array value index")
-			fr.env[in] = copyVal(x.e[k])
+			fr.set(in, copyVal(x.e[k]))
 		case StrV:
-			fr.env[in] = e.strIndex(x, idx, in)
+			fr.set(in, e.strIndex(x, idx, in))
 		default:
 			panic(fmt.Sprintf("index on %T", x))
 		}
 	case *ssa.Slice:
-		fr.env[in] = e.sliceOp(in, fr)
+		fr.set(in, e.sliceOp(in, fr))
 	case *ssa.MakeSlice:
 		ln := e.toI64(e.get(fr, in.Len), in.Len.Type())
 		cp := e.toI64(e.get(fr, in.Cap), in.Cap.Type())
-		fr.env[in] = e.makeSlice(in.Type().Underlying().(*types.Slice).Elem(), ln, cp, in)
+		fr.set(in, e.makeSlice(in.Type().Underlying().(*types.Slice).Elem(), ln, cp, in))
 	case *ssa.MakeMap:
 		e.nobj++
-		fr.env[in] = MapV{m: &MapObj{id: e.nobj}}
+		fr.set(in, MapV{m: &MapObj{id: e.nobj}})
 	case *ssa.MapUpdate:
 		m := e.get(fr, in.Map).(MapV)
 		if m.m == nil {
@@ -952,27 +1018,27 @@ func (e *Exec) step(g *Goroutine) {
 				v = e.zero(in.X.Type().Underlying().(*types.Map).Elem())
 			}
 			if in.CommaOk {
-				fr.env[in] = TupleV{v, tt.Bool(ok)}
+				fr.set(in, TupleV{v, tt.Bool(ok)})
 			} else {
-				fr.env[in] = v
+				fr.set(in, v)
 			}
 		case StrV:
-			fr.env[in] = e.strIndex(x, e.toI64(e.get(fr, in.Index), in.Index.Type()), in)
+			fr.set(in, e.strIndex(x, e.toI64(e.get(fr, in.Index), in.Index.Type()), in))
 		}
 	case *ssa.Range:
-		fr.env[in] = e.rangeStart(e.get(fr, in.X))
+		fr.set(in, e.rangeStart(e.get(fr, in.X)))
 	case *ssa.Next:
-		fr.env[in] = e.rangeNext(e.get(fr, in.Iter).(*rangeIter), in)
+		fr.set(in, e.rangeNext(e.get(fr, in.Iter).(*rangeIter), in))
 	case *ssa.MakeClosure:
 		f := FuncV{fn: in.Fn.(*ssa.Function)}
 		for _, b := range in.Bindings {
 			f.free = append(f.free, e.get(fr, b))
 		}
-		fr.env[in] = f
+		fr.set(in, f)
 	case *ssa.MakeChan:
 		n := e.concretize(e.toI64(e.get(fr, in.Size), in.Size.Type()), "chan size")
 		e.nobj++
-		fr.env[in] = ChanV{c: &ChanObj{id: e.nobj, cap: int(n)}}
+		fr.set(in, ChanV{c: &ChanObj{id: e.nobj, cap: int(n)}})
 	case *ssa.Send:
 		if e.chanSend(g, e.get(fr, in.Chan).(ChanV), e.get(fr, in.X), in) {
 			return
@@ -1036,20 +1102,20 @@ func (e *Exec) step(g *Goroutine) {
 			for _, a := range in.Call.Args {
 				args = append(args, e.get(fr, a))
 			}
-			fr.env[in] = e.builtin(b, args, in)
+			fr.set(in, e.builtin(b, args, in))
 			break
 		}
 		if in.Call.IsInvoke() {
 			if iv, ok := e.get(fr, in.Call.Value).(IfaceV); ok {
 				if c, ok := iv.v.(*ctxObj); ok {
-					fr.env[in] = e.ctxMethod(c, in.Call.Method.Name(), in)
+					fr.set(in, e.ctxMethod(c, in.Call.Method.Name(), in))
 					break
 				}
 			}
 		}
 		f, args := e.callee(fr, &in.Call)
 		if f.native != nil {
-			fr.env[in] = f.native(e, g, args)
+			fr.set(in, f.native(e, g, args))
 			break
 		}
 		if f.fn == nil {
@@ -1077,7 +1143,7 @@ func (e *Exec) step(g *Goroutine) {
 			if blocked {
 				return
 			}
-			fr.env[in] = res
+			fr.set(in, res)
 			if isReleaseIntrinsic(fn) {
 				// a lock release is also a scheduling point *after* it took effect
 				fr.pc++
